@@ -20,6 +20,12 @@ class Unk(Exception):
     pass
 
 
+class Return(Exception):
+    """`return e` - the rest of the enclosing function body is skipped on this piece"""
+    def __init__(self, value):
+        self.value = value
+
+
 def aff(a, b, ty):
     return ("aff", a, b, ty)
 
@@ -62,6 +68,8 @@ class State:
         self.header_bytes = None
         self.assert_ok = None
         self.enc_calls = 0
+        self.transport = None
+        self.staged = False  # a staging Vec was flushed to the transport
 
 
 class WEval:
@@ -198,6 +206,8 @@ class WEval:
             if op in ("BitOr", "BitAnd"):
                 return ("bitop", op, x, y)
             raise Unk(f"operator {op}")
+        if t == "ret":
+            raise Return(self.ev(n[1], env, pc, st) if len(n) > 1 and n[1] is not None else ("unit",))
         if t == "if":
             c = self.ev(n[1], env, pc, st)
             if c == ("bool", True):
@@ -290,7 +300,10 @@ class WEval:
             names = [p[1] for p in fn["params"] if H.tag(p) == "bind"]
             for nm, v in zip(names, args):
                 env[nm] = v
-            return self.ev(H.unwrap_async(fn["hir"]), env, pc, st)
+            try:
+                return self.ev(H.unwrap_async(fn["hir"]), env, pc, st)
+            except Return as r:
+                return r.value
         finally:
             self.depth -= 1
 
@@ -326,7 +339,10 @@ class WEval:
                 env[nm] = v
         self.depth += 1
         try:
-            return self.ev(H.unwrap_async(fn["hir"]), env, pc, st)
+            try:
+                return self.ev(H.unwrap_async(fn["hir"]), env, pc, st)
+            except Return as r:
+                return r.value
         finally:
             self.depth -= 1
 
@@ -392,6 +408,11 @@ class WEval:
             if w is None:
                 # final `w.write_all(&v)` to the transport: v is complete
                 return ("unit",)
+            if a[0] == "vecbuf" and env.get(w, ("",))[0] in ("vecbuf", "walias"):
+                # flushing a staging buffer into another sink (the transport): its length moves over
+                self.add_written(w, env, a[2][0], st)
+                st.staged = True
+                return ("unit",)
             if a[0] == "buf":
                 self.add_written(w, env, ("aff", 0, a[1], "usize"), st)
                 st.header_len = a[1]
@@ -445,9 +466,17 @@ def analyse_writer(g, crate, fn, expansion, direction, bmax):
         env = {"self": ("self",)}
         for p, ty in zip(fn["params"], fn["inputs"]):
             if H.tag(p) == "bind" and p[1] != "self":
-                env[p[1]] = ("encrypter",) if "Encrypter" in ty else ("transport",)
+                if "Encrypter" in ty:
+                    env[p[1]] = ("encrypter",)
+                else:
+                    # the transport is modelled as a byte sink of its own, so that headers written straight to it are seen
+                    env[p[1]] = ("vecbuf", {"transport": True}, [("aff", 0, 0, "usize")])
+                    st.transport = env[p[1]]
         try:
-            ev.ev(H.unwrap_async(fn["hir"]), env, pc, st)
+            try:
+                ev.ev(H.unwrap_async(fn["hir"]), env, pc, st)
+            except Return:
+                pass
             out.append((lo, hi, st, None))
         except Split as s:
             p = s.point
